@@ -1,9 +1,147 @@
 import HedVerif.Driver.Util
+import HedVerif.Model.Backup
 open Lean
 namespace HedVerif.Driver.C18
-open HedVerif HedVerif.Driver
+open HedVerif HedVerif.Driver HedVerif.FS HedVerif.Backup
 
-/-- requests `{"op":"c18.<name>", ...}` of property C18 (stub: none yet) -/
-def handle (_op : String) (_j : Json) : Option (Except String Json) := none
+def asPath (j : Json) : Except String Path := do
+  let a ← asArr j
+  a.mapM asStr
+
+def jpath (p : Path) : Json := jarr (p.map jstr)
+
+def asBytes (j : Json) : Except String (List Sym) := do
+  let a ← asArr j
+  a.mapM (fun x => do let n ← asNat x; pure (Sym.byte n))
+
+def symNat : Sym → Nat
+  | .byte n => n
+  | _ => 0
+
+def getCfg (j : Json) : Except String Cfg := do
+  let d ← asPath (← getVal j "dataRoot")
+  let b ← asPath (← getVal j "backups")
+  let n ← getStr j "name"
+  let st ← getStr j "stamp"
+  pure { dataRoot := d, backups := b, name := n, stamp := st }
+
+/-- tree entry: `[path, null]` directory, `[path, [bytes]]` file,
+`[path, {"keys":[..], "stamp":".."}]` a complete backup record written by `json.dump(indent=4)` -/
+def getTree (j : Json) : Except String St := do
+  let a ← getArr j "tree"
+  a.foldlM (fun s e => do
+    let pr ← asArr e
+    match pr with
+    | [p, v] =>
+      let p ← asPath p
+      match v with
+      | Json.null => pure (set s p .dir)
+      | Json.arr _ => do let b ← asBytes v; pure (set s p (.reg b))
+      | _ => do
+        let ks ← (← getArr v "keys").mapM asStr
+        let st ← getStr v "stamp"
+        pure (set s p (.reg (record st ks)))
+    | _ => throw "bad tree entry") []
+
+def getFiles (j : Json) : Except String (List Path) := do
+  (← getArr j "files").mapM asPath
+
+def errName : Err → String
+  | .badBackupPath => "BadBackupPath" | .badBackupFormat => "BadBackupFormat"
+  | .badDictPath => "BadBackupDictionaryPath" | .badRootPath => "BadBackupRootPath"
+  | .isADirectory => "IsADirectoryError" | .jsonDecode => "JSONDecodeError"
+  | .missingBackupFile => "MissingBackupFile" | .extraFiles => "ExtraFilesInBackup"
+  | .noBackup => "NoBackup" | .backupDoesNotExist => "BackupDoesNotExist" | .badDataFile => "BadDataFile"
+  | .fileNotFound => "FileNotFoundError"
+
+def scanJson (r : Except Err Listing) : Json :=
+  match r with
+  | .error e => jobj [("err", Json.str (errName e))]
+  | .ok l => jobj [("ok", jarr (l.map (fun e => jarr [jstr e.1, jarr (e.2.map jstr)])))]
+
+def isRecordSym : Sym → Bool
+  | .byte _ => false
+  | _ => true
+
+/-- regular files of the state: `[path, [bytes]]`, a record as `[path, {"len": n}]` -/
+def filesJson (s : St) (under : Path) : Json :=
+  jarr (s.filterMap (fun e => match e.2 with
+    | .dir => none
+    | .reg b =>
+      if under.isPrefixOf e.1 then
+        if b.any isRecordSym || e.1.getLast? == some lockName then
+          some (jarr [jpath e.1, jobj [("len", jnat b.length)]])
+        else some (jarr [jpath e.1, jarr (b.map (fun x => jnat (symNat x)))])
+      else none))
+
+def stepJson : Step Sym → Json
+  | .mkdir p => jarr [Json.str "mkdir", jpath p]
+  | .create p => jarr [Json.str "create", jpath p]
+  | .append p ch => jarr [Json.str "append", jpath p, jnat ch.length]
+  | .close p => jarr [Json.str "close", jpath p]
+  | .rename a b => jarr [Json.str "rename", jpath a, jpath b]
+  | .remove p => jarr [Json.str "remove", jpath p]
+
+def getOp (j : Json) : Except String Op := do
+  let k ← getString j "op"
+  match k with
+  | "modify" => do pure (.modify (← asPath (← getVal j "path")) (← asBytes (← getVal j "bytes")))
+  | "delete" => do pure (.delete (← asPath (← getVal j "path")))
+  | "restore" => do pure (.restore (← (← getArr j "tasks").mapM asStr))
+  | "remodel" => pure .remodel
+  | _ => throw s!"unknown history op {k}"
+
+/-- the transformation of the remodel run as a finite table (content -> content), identity elsewhere -/
+def getT (j : Json) : Except String (List Sym → List Sym) := do
+  let a ← getArr j "T"
+  let tab ← a.mapM (fun e => do
+    match (← asArr e) with
+    | [x, y] => do pure ((← asBytes x), (← asBytes y))
+    | _ => throw "bad T entry")
+  pure (fun b => match tab.find? (fun e => e.1 == b) with | some e => e.2 | none => b)
+
+def handle (op : String) (j : Json) : Option (Except String Json) :=
+  match op with
+  /- every crash point of `create_backup`: steps, and for each k the scan and the surviving backup files -/
+  | "c18.crash" => some do
+      let c ← getCfg j
+      let s0 ← getTree j
+      let files ← getFiles j
+      let listing := scan s0 c.backups
+      let l := match listing with | .ok l => l | .error _ => []
+      let (ret, steps) := create c l s0 files
+      let pts := (List.range (steps.length + 1)).map (fun k =>
+        let s := crashAfter k steps s0
+        jobj [("k", jnat k), ("scan", scanJson (scan s c.backups)), ("files", filesJson s c.bdir)])
+      pure <| jobj [("pre", scanJson listing), ("ret", jbool ret), ("steps", jarr (steps.map stepJson)),
+                    ("points", jarr pts)]
+  /- complete backup, then a history of operations; state of all regular files after each -/
+  | "c18.history" => some do
+      let c ← getCfg j
+      let s0 ← getTree j
+      let files ← getFiles j
+      let T ← getT j
+      let ops ← (← getArr j "ops").mapM getOp
+      let s := exec (createSteps c s0 files) s0
+      match scan s c.backups with
+      | .error e => pure <| jobj [("scan-err", Json.str (errName e))]
+      | .ok l =>
+        let ks := match l.find? (fun e => e.1 == c.name) with | some e => e.2 | none => []
+        let fs := ks.map splitKey
+        let rec go (s : St) : List Op → List Json → List Json
+          | [], acc => acc.reverse
+          | o :: r, acc => match applyOp c T fs s o with
+            | .error e => (jobj [("err", Json.str (errName e))] :: acc).reverse
+            | .ok s' => go s' r (jobj [("files", filesJson s' [])] :: acc)
+        pure <| jobj [("keys", jarr (ks.map jstr)), ("after-create", filesJson s []),
+                      ("trace", jarr (go s ops []))]
+  /- key mapping and task filter in isolation -/
+  | "c18.key" => some do
+      let p ← asPath (← getVal j "path")
+      let tasks ← (← getArr j "tasks").mapM asStr
+      pure <| jobj [("key", jstr (joinKey p)), ("split", jpath (splitKey (joinKey p))),
+                    ("picked", jbool (picked tasks p)), ("sel", jbool (selKey p)),
+                    ("recordLen", jnat (record (← getStr j "stamp") [joinKey p]).length)]
+  | _ => none
 
 end HedVerif.Driver.C18
